@@ -85,6 +85,16 @@ Definition C17_initial_plane_stmt : Prop :=
                    uv = plane_closest_uv point n r pos)
     /\ plane_pos point n r (plane_closest_uv point n r pos) = plane_closest_point point n pos.
 
+(** RadialClamp and FreeClamp are created AT the given position: parameter 0 (resp. the position
+    itself) is at distance zero, hence a minimiser over any admissible set that contains it; with
+    [C17_initial] the new clamp reports exactly the position it was created at *)
+Definition C17_initial_radial_free_stmt : Prop :=
+  (forall p0 c n k (dom : R -> Prop), dom 0 ->
+     is_argmin dom (clamp_distance (radial_pos_k p0 c n k) p0) 0 /\ radial_pos_k p0 c n k 0 = p0)
+  /\ (forall pos : vec,
+     is_argmin (fun _ => True) (clamp_distance free_pos pos) pos
+     /\ forall q, is_argmin (fun _ => True) (clamp_distance free_pos pos) q -> q = pos).
+
 (** ** links *)
 
 (** TranslationLink, after any history of leader moves and updates: an update puts the follower at
@@ -118,6 +128,15 @@ Definition C17_rotation_about_axis_stmt : Prop :=
     0 < tol -> axis <> vzero -> rl_init tol l0 f0 axis o = Some s0 ->
     let s := rl_run s0 (ops ++ [Move (rotate l0 phi axis o); Update]) in
     rl_leader s = rotate l0 phi axis o /\ rl_follower s = rotate f0 phi axis o.
+
+(** the correspondence of the check evaluates the arccos-free run [rl_run_cs] (cosine and sine of the
+    signed angle in closed form); it IS the transcribed run [rl_run] (arccos, clip, sign flip) as long
+    as the leader stays off the axis *)
+Definition C17_rotation_corr_form_stmt : Prop :=
+  forall (tol : R) (l0 f0 axis o : vec) (s0 : rlink) (ops : list lop),
+    0 < tol -> axis <> vzero -> rl_init tol l0 f0 axis o = Some s0 ->
+    Forall (off_axis (rl_const s0)) ops ->
+    rl_run_cs s0 ops = rl_run s0 ops.
 
 (** SymmetryLink: after an update the follower is the mirror image of the leader in the plane
     (origin, normal) for any non-zero, non-unit normal: the mid point lies in the plane, the
@@ -193,6 +212,13 @@ Proof.
   - apply plane_closest_is_projection; exact H.
 Qed.
 
+Theorem C17_initial_radial_free : C17_initial_radial_free_stmt.
+Proof.
+  split.
+  - intros p0 c n k dom Hd. split; [apply radial_initial_argmin; exact Hd | apply radial_pos_0].
+  - exact free_initial_argmin.
+Qed.
+
 Theorem C17_translation : C17_translation_stmt.
 Proof.
   intros l0 f0 ops. split.
@@ -209,6 +235,14 @@ Qed.
 
 Theorem C17_rotation_about_axis : C17_rotation_about_axis_stmt.
 Proof. intros tol l0 f0 axis o s0 ops phi Ht Na Hi. exact (rl_rotated_leader_law tol l0 f0 axis o s0 ops phi Ht Na Hi). Qed.
+
+Theorem C17_rotation_corr_form : C17_rotation_corr_form_stmt.
+Proof.
+  intros tol l0 f0 axis o s0 ops Ht Na Hi Hall.
+  destruct (rl_init_some tol l0 f0 axis o s0 Ht Na Hi) as (El & _ & Eo & Ea & _ & Er & N0 & Hk & Hp).
+  apply rl_run_cs_eq; auto.
+  rewrite Eo, Ea, El, <- Er. exact N0.
+Qed.
 
 Theorem C17_symmetry : C17_symmetry_stmt.
 Proof.
@@ -256,8 +290,10 @@ Print Assumptions C17_declared_function.
 Print Assumptions C17_initial.
 Print Assumptions C17_initial_line.
 Print Assumptions C17_initial_plane.
+Print Assumptions C17_initial_radial_free.
 Print Assumptions C17_translation.
 Print Assumptions C17_rotation.
 Print Assumptions C17_rotation_about_axis.
+Print Assumptions C17_rotation_corr_form.
 Print Assumptions C17_symmetry.
 Print Assumptions C17_leader_unaltered.
